@@ -1,5 +1,5 @@
 (* C19 — built-in degree distributions are the probability mass functions they name.
-   Property theorems only; each is closed by [exact] of a lemma of Proofs/DistP.v.
+   Property theorems only; each is closed by [exact] of a lemma of Proofs/DistP.v / Proofs/DistSuppP.v.
 
    Real-valued laws (Model/Dist.v, formulas of gcmpy/distributions/*.py):
      exponential_R a k  = (1 - e^-a) e^(-a k)                         k >= 0
@@ -7,12 +7,15 @@
      power_law_R s K k  = k^-s / sum_{j=1..K} j^-s                    k >= 1, K = index at which the code's loop stops
      cutoff_R s kap K k = k^-s e^(-k/kap) / sum_{j=1..K} z^j j^-s     z = e^(-1/kap)
      power_law_exact / cutoff_exact: the same with the full series zeta s / polylog s z.
+   The support of the two power laws starts at k = 1: every statement about one of their VALUES carries
+   (1 <= k)%nat, because at k = 0 the totalised Rpower gives the junk value 1 (C19_degree_0_is_totalised) where the
+   code raises ZeroDivisionError; the series statements range over S n.
    Axioms: the theorems over R use the real-number axioms of the standard library and the classical
    axioms Coquelicot / Interval import (expected for this property, see DESIGN.md section 6). *)
 From Coq Require Import Reals ZArith List Bool QArith Qreals Lra.
 From Coquelicot Require Import Coquelicot.
 From Interval Require Import Specific_bigint Specific_ops Float_full Interval Xreal Basic Sig.
-From GV Require Import Lib.Tree Model.Dist Proofs.DistP.
+From GV Require Import Lib.Tree Model.Dist Proofs.DistP Proofs.DistSuppP.
 Import ListNotations.
 Local Open Scope R_scope.
 (* one line per axiom in the Print Assumptions output (the harness parses `name : type` lines) *)
@@ -25,10 +28,19 @@ Set Printing Width 100000.
 Theorem C19_values_nonneg :
   (forall a k, 0 <= a -> 0 <= exponential_R a k) /\
   (forall m k, 0 <= m -> 0 <= poisson_R m k) /\
-  (forall s K k, (1 <= K)%nat -> 0 < power_law_R s K k) /\
-  (forall s kappa K k, (1 <= K)%nat -> 0 < cutoff_R s kappa K k).
-Proof. exact (conj exponential_nonneg (conj poisson_nonneg (conj power_law_pos cutoff_pos))). Qed.
+  (forall s K k, (1 <= K)%nat -> (1 <= k)%nat -> 0 < power_law_R s K k) /\
+  (forall s kappa K k, (1 <= K)%nat -> (1 <= k)%nat -> 0 < cutoff_R s kappa K k).
+Proof. exact (conj exponential_nonneg (conj poisson_nonneg (conj power_law_pos_supp cutoff_pos_supp))). Qed.
 Print Assumptions C19_values_nonneg.
+
+(* why (1 <= k): Coq's ln is total with ln 0 = 0, so the formulas have a value at k = 0 - the junk value 1 for both
+   terms, 1 / normaliser for the law - where the code (0 ** -s) raises; k = 0 is outside the support and no theorem of
+   this file says anything about it *)
+Theorem C19_degree_0_is_totalised :
+  (forall s, pl_term s 0 = 1) /\ (forall s z, co_term s z 0 = 1) /\
+  (forall s K, power_law_R s K 0 = 1 / psum (pl_term s) K).
+Proof. exact (conj pl_term_0 (conj co_term_0 power_law_R_0)). Qed.
+Print Assumptions C19_degree_0_is_totalised.
 
 (* ------------------------------------------------------------------ the closed forms sum to exactly 1 *)
 Theorem C19_closed_forms_sum_to_1 :
@@ -65,16 +77,16 @@ Print Assumptions C19_truncated_laws_sum_to_1_within.
 (* every value of a truncated law is within K^(1-s) (relative, and on the support also absolute) of the
    named law *)
 Theorem C19_truncated_laws_pointwise :
-  (forall s K k, 2 <= s -> (1 <= K)%nat ->
+  (forall s K k, 2 <= s -> (1 <= K)%nat -> (1 <= k)%nat ->
      0 <= power_law_R s K k - power_law_exact s k <= Rpower (INR K) (1 - s) * power_law_exact s k) /\
   (forall s K k, 2 <= s -> (1 <= K)%nat -> (1 <= k)%nat ->
      Rabs (power_law_R s K k - power_law_exact s k) <= Rpower (INR K) (1 - s)) /\
-  (forall s kappa K k, 2 <= s -> 0 < kappa -> (1 <= K)%nat ->
+  (forall s kappa K k, 2 <= s -> 0 < kappa -> (1 <= K)%nat -> (1 <= k)%nat ->
      0 <= cutoff_R s kappa K k - cutoff_exact s kappa k <= Rpower (INR K) (1 - s) * cutoff_exact s kappa k) /\
   (forall s kappa K k, 2 <= s -> 0 < kappa -> (1 <= K)%nat -> (1 <= k)%nat ->
      Rabs (cutoff_R s kappa K k - cutoff_exact s kappa k) <= Rpower (INR K) (1 - s)).
 Proof.
-  exact (conj power_law_pointwise (conj power_law_pointwise_abs (conj cutoff_pointwise cutoff_pointwise_abs))).
+  exact (conj power_law_pointwise_supp (conj power_law_pointwise_abs (conj cutoff_pointwise_supp cutoff_pointwise_abs))).
 Qed.
 Print Assumptions C19_truncated_laws_pointwise.
 
@@ -84,10 +96,10 @@ Theorem C19_cutoff_tails_sharp :
   (forall s kappa K, 2 <= s -> 0 < kappa -> (1 <= K)%nat ->
      let z := cutoff_z kappa in
      0 <= polylog s z / psum (co_term s z) K - 1 <= z ^ K * Rpower (INR K) (1 - s)) /\
-  (forall s kappa K k, 2 <= s -> 0 < kappa -> (1 <= K)%nat ->
+  (forall s kappa K k, 2 <= s -> 0 < kappa -> (1 <= K)%nat -> (1 <= k)%nat ->
      0 <= cutoff_R s kappa K k - cutoff_exact s kappa k
        <= cutoff_z kappa ^ K * Rpower (INR K) (1 - s) * cutoff_exact s kappa k).
-Proof. exact (conj cutoff_sum_sharp cutoff_pointwise_sharp). Qed.
+Proof. exact (conj cutoff_sum_sharp cutoff_pointwise_sharp_supp). Qed.
 Print Assumptions C19_cutoff_tails_sharp.
 
 (* the series-truncation tolerance in closed form: at EVERY index at which the loop may stop (near_break,
@@ -116,15 +128,16 @@ Print Assumptions C19_truncation_loops_terminate.
 Theorem C19_enclosures_sound :
   (forall A a k, cR A a -> cR (i_exponential A k) (exponential_R a k)) /\
   (forall M m k, cR M m -> cR (i_poisson M k) (poisson_R m k)) /\
-  (forall S N s K k, cR S s -> cR N (psum (pl_term s) K) -> cR (i_power_law S N k) (power_law_R s K k)) /\
-  (forall S Ka N s kappa K k,
+  (forall S N s K k, (1 <= k)%nat ->
+     cR S s -> cR N (psum (pl_term s) K) -> cR (i_power_law S N k) (power_law_R s K k)) /\
+  (forall S Ka N s kappa K k, (1 <= k)%nat ->
      cR S s -> cR Ka kappa -> cR N (psum (co_term s (cutoff_z kappa)) K) ->
      cR (i_cutoff S Ka N k) (cutoff_R s kappa K k)) /\
   (forall fuel term t res,
      (forall j, cR (term j) (t j)) -> trunc fuel term = Some res ->
      List.Forall (fun c => near_break t (fst c) /\ cR (snd c) (psum t (fst c))) res).
 Proof.
-  exact (conj encl_exponential (conj encl_poisson (conj encl_power_law (conj encl_cutoff trunc_sound)))).
+  exact (conj encl_exponential (conj encl_poisson (conj encl_power_law_supp (conj encl_cutoff_supp trunc_sound)))).
 Qed.
 Print Assumptions C19_enclosures_sound.
 
@@ -159,42 +172,73 @@ Print Assumptions C19_checker_sound.
 (* what an accepted value satisfies with respect to the NAMED laws (full zeta / polylogarithm):
    within the series-truncation tolerance K^(1-s) (plus the float tolerance) of the exact formula *)
 Theorem C19_accepted_values_vs_named_laws :
-  (forall s k x, 2 <= s -> Spec_power_law s k x ->
+  (forall s k x, 2 <= s -> (1 <= k)%nat -> Spec_power_law s k x ->
      0 <= x /\ exists K, near_break (pl_term s) K /\
        Rabs (x - power_law_exact s k)
          <= (Rpower (INR K) (1 - s) + relR * (1 + Rpower (INR K) (1 - s))) * power_law_exact s k + absR) /\
-  (forall s kappa k x, 2 <= s -> 0 < kappa -> Spec_cutoff s kappa k x ->
+  (forall s kappa k x, 2 <= s -> 0 < kappa -> (1 <= k)%nat -> Spec_cutoff s kappa k x ->
      0 <= x /\ exists K, near_break (co_term s (cutoff_z kappa)) K /\
        Rabs (x - cutoff_exact s kappa k)
          <= (Rpower (INR K) (1 - s) + relR * (1 + Rpower (INR K) (1 - s))) * cutoff_exact s kappa k + absR).
-Proof. exact (conj spec_power_law_exact spec_cutoff_exact). Qed.
+Proof. exact (conj spec_power_law_exact_supp spec_cutoff_exact_supp). Qed.
 Print Assumptions C19_accepted_values_vs_named_laws.
 
 (* the same with the tolerance in closed form (TRUNC_TOL = 1002 / 1000000, relR = 2^-36, absR = 2^-1000):
    every value the checker accepts is non-negative and within 1.002e-3 (relative) of the named law *)
 Theorem C19_accepted_values_closed_tolerance :
-  (forall s k x, 2 <= s -> Spec_power_law s k x ->
+  (forall s k x, 2 <= s -> (1 <= k)%nat -> Spec_power_law s k x ->
      0 <= x /\
      Rabs (x - power_law_exact s k) <= (TRUNC_TOL + relR * (1 + TRUNC_TOL)) * power_law_exact s k + absR) /\
-  (forall s kappa k x, 2 <= s -> 0 < kappa -> Spec_cutoff s kappa k x ->
+  (forall s kappa k x, 2 <= s -> 0 < kappa -> (1 <= k)%nat -> Spec_cutoff s kappa k x ->
      0 <= x /\
      Rabs (x - cutoff_exact s kappa k) <= (TRUNC_TOL + relR * (1 + TRUNC_TOL)) * cutoff_exact s kappa k + absR).
-Proof. exact (conj spec_power_law_exact_closed spec_cutoff_exact_closed). Qed.
+Proof. exact (conj spec_power_law_exact_closed_supp spec_cutoff_exact_closed_supp). Qed.
 Print Assumptions C19_accepted_values_closed_tolerance.
 
 (* ------------------------------------------------------------------ the model meets the specification *)
-(* for all valid parameters and all degrees: the loop stops and the model's value satisfies the
-   specification the checker enforces on the implementation *)
+(* "The model" = the law truncated at the index where the exact-arithmetic loop stops.
+   Clauses 1-2: for all valid parameters the loop stops at EXACTLY ONE index (existence and uniqueness: the model is a
+   function of the parameters, not a relation).
+   Clauses 3-4: for s >= 2 and that index K, (a) every value on the support k >= 1 satisfies the specification the
+   checker enforces on the implementation, (b) the values sum over k = 1, 2, .. to a number in [1, 1 + TRUNC_TOL),
+   TRUNC_TOL = 1.002e-3, (c) every value lies within TRUNC_TOL (relative, from above) of the named law.
+   (Until growth 2 this theorem was Spec (law) for each law: 0 <= law and near law law, i.e. C19_values_nonneg +
+   reflexivity + C19_truncation_loops_terminate; that statement is kept below as C19_spec_satisfiable_sanity.) *)
 Theorem C19_model_meets_spec :
-  (forall a k, 0 < a -> Spec_exponential a k (exponential_R a k)) /\
-  (forall m k, 0 < m -> Spec_poisson m k (poisson_R m k)) /\
-  (forall s k, 0 < s -> exists K, is_break (pl_term s) K /\ Spec_power_law s k (power_law_R s K k)) /\
-  (forall s kappa k, 0 < s -> 0 < kappa ->
-     exists K, is_break (co_term s (cutoff_z kappa)) K /\ Spec_cutoff s kappa k (cutoff_R s kappa K k)).
+  (forall s, 0 < s -> exists K, is_break (pl_term s) K /\ forall K', is_break (pl_term s) K' -> K' = K) /\
+  (forall s z, 0 < s -> 0 < z <= 1 ->
+     exists K, is_break (co_term s z) K /\ forall K', is_break (co_term s z) K' -> K' = K) /\
+  (forall s K, 2 <= s -> is_break (pl_term s) K ->
+     (forall k, (1 <= k)%nat -> Spec_power_law s k (power_law_R s K k)) /\
+     is_series (fun n => power_law_R s K (S n)) (zeta s / psum (pl_term s) K) /\
+     0 <= zeta s / psum (pl_term s) K - 1 < TRUNC_TOL /\
+     (forall k, (1 <= k)%nat ->
+        0 <= power_law_R s K k - power_law_exact s k <= TRUNC_TOL * power_law_exact s k)) /\
+  (forall s kappa K, 2 <= s -> 0 < kappa -> is_break (co_term s (cutoff_z kappa)) K ->
+     (forall k, (1 <= k)%nat -> Spec_cutoff s kappa k (cutoff_R s kappa K k)) /\
+     is_series (fun n => cutoff_R s kappa K (S n))
+               (polylog s (cutoff_z kappa) / psum (co_term s (cutoff_z kappa)) K) /\
+     0 <= polylog s (cutoff_z kappa) / psum (co_term s (cutoff_z kappa)) K - 1 < TRUNC_TOL /\
+     (forall k, (1 <= k)%nat ->
+        0 <= cutoff_R s kappa K k - cutoff_exact s kappa k <= TRUNC_TOL * cutoff_exact s kappa k)).
 Proof.
-  exact (conj model_exponential_spec (conj model_poisson_spec (conj model_power_law_total model_cutoff_total))).
+  exact (conj power_law_break_unique (conj cutoff_break_unique (conj model_power_law_property model_cutoff_property))).
 Qed.
 Print Assumptions C19_model_meets_spec.
+
+(* SANITY only (not counted as evidence for the property): the specification is satisfiable - by the law itself.
+   Each clause is 0 <= law (C19_values_nonneg), near law law (reflexivity) and, for the power laws, the existence of
+   the break index (C19_truncation_loops_terminate). *)
+Theorem C19_spec_satisfiable_sanity :
+  (forall a k, 0 < a -> Spec_exponential a k (exponential_R a k)) /\
+  (forall m k, 0 < m -> Spec_poisson m k (poisson_R m k)) /\
+  (forall s k, 0 < s -> (1 <= k)%nat -> exists K, is_break (pl_term s) K /\ Spec_power_law s k (power_law_R s K k)) /\
+  (forall s kappa k, 0 < s -> 0 < kappa -> (1 <= k)%nat ->
+     exists K, is_break (co_term s (cutoff_z kappa)) K /\ Spec_cutoff s kappa k (cutoff_R s kappa K k)).
+Proof.
+  exact (conj model_exponential_spec (conj model_poisson_spec (conj model_power_law_total_supp model_cutoff_total_supp))).
+Qed.
+Print Assumptions C19_spec_satisfiable_sanity.
 
 (* ------------------------------------------------------------------ non-vacuity *)
 (* the checker accepts the implementation's actual floats (exact dyadic values of
@@ -236,4 +280,21 @@ Proof.
   split; [exists K1; apply is_break_near_break, H1|].
   split; [exists K2; apply is_break_near_break, H2|].
   split; [eexists; apply (model_power_law_spec _ _ 3%nat H1) | eexists; apply (model_cutoff_spec _ _ _ 3%nat H2)].
+Qed.
+
+(* the hypotheses of C19_model_meets_spec clauses 3-4 are inhabited (s = 5/2 >= 2, kappa = 10, degree 3 >= 1): the loop
+   stops at an index, at exactly one, and the conclusions then hold there *)
+Example C19_nonvacuous_model :
+  (exists K, is_break (pl_term (5 / 2)) K /\ (forall K', is_break (pl_term (5 / 2)) K' -> K' = K) /\
+             Spec_power_law (5 / 2) 3 (power_law_R (5 / 2) K 3)) /\
+  (exists K, is_break (co_term (5 / 2) (cutoff_z 10)) K /\ Spec_cutoff (5 / 2) 10 3 (cutoff_R (5 / 2) 10 K 3)).
+Proof.
+  pose proof (cutoff_z_range 10 ltac:(lra)) as Hz.
+  destruct (power_law_break_unique (5 / 2) ltac:(lra)) as [K1 [H1 U1]].
+  destruct (cutoff_loop_terminates (5 / 2) (cutoff_z 10) ltac:(lra) ltac:(lra)) as [K2 H2].
+  split.
+  - exists K1. split; [exact H1 |]. split; [exact U1 |].
+    apply (proj1 (model_power_law_property (5 / 2) K1 ltac:(lra) H1) 3%nat). auto with arith.
+  - exists K2. split; [exact H2 |].
+    apply (proj1 (model_cutoff_property (5 / 2) 10 K2 ltac:(lra) ltac:(lra) H2) 3%nat). auto with arith.
 Qed.
